@@ -56,8 +56,8 @@ func TestVerifC19_sumvec_ctor(t *testing.T) {
 	r := verifmc.Start(t, "C19", "sumvec_ctor")
 	defer r.Finish()
 	var insts []prio.Inst
-	for _, l := range []uint{0, 1, 2, 5} {
-		for _, b := range []uint{0, 1, 8, 63, 64, 65} {
+	for _, l := range []uint{5, 1, 2, 0} {
+		for _, b := range []uint{8, 1, 63, 64, 65, 0} {
 			seen := map[uint]bool{}
 			for _, c := range []uint{0, 1, 2, l * b, l*b + 1} {
 				if !seen[c] {
@@ -67,7 +67,7 @@ func TestVerifC19_sumvec_ctor(t *testing.T) {
 			}
 		}
 	}
-	c19Sys().UnitCtor(r, insts, []int{0, 1, 2, 3, 255})
+	c19Sys().UnitCtor(r, insts, []int{2, 3, 255, 0, 1})
 }
 
 func TestVerifC19_sumvec_agg(t *testing.T) {
@@ -81,8 +81,9 @@ func TestVerifC19_sumvec_agg(t *testing.T) {
 			c19SV(2, 64, 11), c19SV(2, 63, 126),
 		},
 		FullShares:  []int{2, 3},
-		LightShares: []int{4, 9, 255},
+		LightShares: []int{4, 8, 9, 255},
 		MaxBatch:    3,
+		RTMaxBatch:  2,
 		Seeds:       r.Pick(2, 5),
 		DomainLimit: 8,
 	}
